@@ -727,11 +727,13 @@ Section Safety.
       rewrite Forall_forall in Hfr. destruct (Hfr s0 Hin0) as ((Hty & Hln & Hsq) & _).
       split; [exact Hk|]. split.
       + unfold strip, hstrip. cbn [p_ty p_len p_seq p_body]. rewrite Hty, Hln, Hsq, Hraw. reflexivity.
-      + cbn [cur cache]. rewrite N.mod_small by lia. split; [|reflexivity]. split; [lia|].
-        intros k e'. rewrite clookup_cremove. destruct (cur st =? k); [discriminate|apply Hent].
+      + cbn [cur cache]. rewrite N.mod_small by lia. split; [|reflexivity]. split; [cbn [cur]; lia|].
+        cbn [cache]. intros k e'. rewrite clookup_cremove. destruct (cur st =? k); [discriminate|apply Hent].
   Qed.
 
   Definition hm (j : N) := hstrip (M j).
+
+  Ltac safe4 := split; [reflexivity|split; [assumption|split; [lia|]]].
 
   Lemma pop_all_safe fuel : forall st, SInv st ->
     let '(st', ms, pn) := pop_all fuel st in
@@ -739,13 +741,13 @@ Section Safety.
     map hm (idx (cur st)) ++ map strip ms = map hm (idx (cur st')).
   Proof.
     induction fuel as [|k IH]; intros st HS; cbn [pop_all].
-    - cbn [map]. rewrite app_nil_r. repeat split; auto; lia.
+    - safe4. cbn [map]. now rewrite app_nil_r.
     - pose proof (pop_safe st HS) as Hp. destruct (pop st) as [| |p st1].
-      + cbn [map]. rewrite app_nil_r. repeat split; auto; lia.
+      + safe4. cbn [map]. now rewrite app_nil_r.
       + contradiction.
       + destruct Hp as (Hlt & Hst & HS1 & Hc1). specialize (IH st1 HS1).
         destruct (pop_all k st1) as [[st2 ms] pn]. destruct IH as (Hpn & HS2 & Hle & Hmap).
-        repeat split; auto; [lia|]. rewrite <- Hmap, Hc1, idx_succ, map_app. cbn [map].
+        subst pn. safe4. rewrite <- Hmap, Hc1, idx_succ, map_app. cbn [map].
         rewrite <- app_assoc. cbn [app]. unfold hm at 2. now rewrite Hst.
   Qed.
 
@@ -758,7 +760,7 @@ Section Safety.
     pose proof (push_SInv st r Hr HS) as H1. pose proof (push_cur st r) as Hc.
     destruct (push st r) as [st1 [[ish retr] err]]. cbn [fst] in H1, Hc.
     destruct (err || negb ish).
-    - cbn [map]. rewrite app_nil_r, Hc. repeat split; auto; lia.
+    - safe4. cbn [map]. now rewrite app_nil_r, Hc.
     - unfold drain. pose proof (pop_all_safe (S (length (cache st1))) st1 H1) as H2.
       destruct (pop_all _ st1) as [[st2 ms] pn]. rewrite <- Hc. exact H2.
   Qed.
@@ -769,11 +771,11 @@ Section Safety.
     map hm (idx (cur st)) ++ map strip ms = map hm (idx (cur st')).
   Proof.
     induction 1 as [|r rs Hr _ IH]; intros st HS; cbn [run].
-    - cbn [map]. rewrite app_nil_r. repeat split; auto; lia.
+    - safe4. cbn [map]. now rewrite app_nil_r.
     - pose proof (arrive_safe st r Hr HS) as H1.
       destruct (arrive st r) as [[[st1 tr] ms] p]. destruct H1 as (-> & HS1 & Hle1 & Hm1).
       specialize (IH st1 HS1). destruct (run st1 rs) as [[st2 ms'] p']. destruct IH as (-> & HS2 & Hle2 & Hm2).
-      repeat split; auto; [lia|]. rewrite map_app, app_assoc, Hm1. exact Hm2.
+      safe4. rewrite map_app, app_assoc, Hm1. exact Hm2.
   Qed.
 
   (* SAFETY.  Honest messages M 0 .. M (n-1) (message_seq = index).  The receiver is fed ANY list of
@@ -790,6 +792,597 @@ Section Safety.
     intro H. pose proof (run_safe rs H init SInv_init) as H1.
     destruct (run init rs) as [[st ms] pn]. destruct H1 as (Hp & [Hc _] & _ & Hm).
     cbn [init cur] in Hm. unfold idx at 1 in Hm. cbn [N.to_nat seq map app] in Hm.
-    repeat split; auto.
+    split; [exact Hp|split; [exact Hc|exact Hm]].
   Qed.
 End Safety.
+
+(* ------------------------------------------------------------------ 5. completeness *)
+
+Lemma frag_eq_dec (a b : frag) : {a = b} + {a <> b}.
+Proof. decide equality; try apply N.eq_dec. apply (list_eq_dec N.eq_dec). Qed.
+
+Lemma contiguous_slice : forall Pl off, contiguous off Pl -> forall f, In f Pl ->
+  off <= f_off f /\ f_off f + f_flen f <= off + len (cat_data Pl) /\
+  f_data f = take (f_flen f) (drop (f_off f - off) (cat_data Pl)).
+Proof.
+  induction Pl as [|g Pl IH]; intros off Hc f Hin; [contradiction|].
+  cbn [contiguous] in Hc. destruct Hc as [Hoff Hc].
+  unfold cat_data. cbn [map concat]. fold (cat_data Pl). destruct Hin as [<-|Hin].
+  - rewrite Hoff. split; [lia|]. split; [rewrite len_app; unfold f_flen; lia|].
+    replace (off - off) with 0 by lia. unfold drop. cbn [N.to_nat skipn]. unfold f_flen.
+    symmetry. apply take_app_exact.
+  - destruct (IH _ Hc f Hin) as (H1 & H2 & H3). split; [lia|].
+    split; [rewrite len_app; unfold f_flen in *; lia|].
+    replace (f_off f - off) with (len (f_data g) + (f_off f - (off + f_flen g))) by (unfold f_flen in *; lia).
+    rewrite drop_app_add. exact H3.
+Qed.
+
+Lemma good_part_slice m Pl f : good_part m Pl -> In f Pl -> is_slice m f.
+Proof.
+  intros (Hne & Hh & Hc & Hcat & Hnd) Hin. rewrite Forall_forall in Hh.
+  destruct (contiguous_slice Pl 0 Hc f Hin) as (_ & H2 & H3). rewrite Hcat in *.
+  split; [now apply Hh|]. split; [lia|]. now rewrite N.sub_0_r in H3.
+Qed.
+
+Lemma good_part_sum m Pl : good_part m Pl -> sum_flen Pl = len (m_body m).
+Proof. intros (_ & _ & _ & Hcat & _). now rewrite sum_flen_cat, Hcat. Qed.
+
+Lemma good_part_first m Pl : good_part m Pl -> exists f0, In f0 Pl /\ f_off f0 = 0.
+Proof.
+  intros (Hne & _ & Hc & _). destruct Pl as [|f0 Pl]; [contradiction|].
+  exists f0. split; [now left|]. now destruct Hc.
+Qed.
+
+(* a stored superset of one duplicate-free contiguous partition walks to the whole body *)
+Lemma walk_complete L frs : NoDup (map s_off frs) ->
+  forall S t acc fuel, contiguous t S -> t + sum_flen S = L ->
+    incl S (map s_frag frs) -> (length S <= fuel)%nat ->
+    walk fuel t L frs acc = Some (acc ++ cat_data S).
+Proof.
+  intros Hnd. induction S as [|f S IH]; intros t acc fuel Hc Hsum Hincl Hfuel.
+  - cbn [sum_flen fold_right] in Hsum. unfold cat_data. cbn [map concat]. rewrite app_nil_r.
+    destruct fuel; cbn [walk]; [reflexivity|]. destruct (t <? L) eqn:E; [lia|reflexivity].
+  - cbn [contiguous] in Hc. destruct Hc as [Hoff Hc].
+    cbn [sum_flen fold_right] in Hsum. fold (sum_flen S) in Hsum.
+    destruct (t <? L) eqn:E.
+    + destruct fuel as [|k]; [cbn [length] in Hfuel; lia|]. cbn [walk]. rewrite E.
+      assert (Hin : In f (map s_frag frs)) by (apply Hincl; now left).
+      apply in_map_iff in Hin. destruct Hin as (s & Hs & Hin).
+      assert (Hso : s_off s = t) by (unfold s_off; now rewrite Hs).
+      rewrite <- Hso. rewrite (efind_nodup frs s Hnd Hin).
+      unfold s_flen. rewrite Hs, Hso.
+      rewrite (IH (t + f_flen f) (acc ++ f_data f) k); [| | | |]; try assumption; try lia.
+      * unfold cat_data. cbn [map concat]. now rewrite app_assoc.
+      * intros x Hx. apply Hincl. now right.
+      * cbn [length] in Hfuel. lia.
+    + assert (Hz : sum_flen (f :: S) = 0) by (cbn [sum_flen fold_right]; fold (sum_flen S); lia).
+      rewrite sum_flen_cat in Hz. apply len_0_nil in Hz. rewrite Hz, app_nil_r.
+      destruct fuel; cbn [walk]; [reflexivity|]. now rewrite E.
+Qed.
+
+(* if the stored fragments sum to the whole of a duplicate-free partition they contain every
+   non-empty fragment of it *)
+Lemma sum_full (l Pk : list frag) : NoDup l -> incl l Pk -> sum_flen l = sum_flen Pk ->
+  forall f, In f Pk -> 0 < f_flen f -> In f l.
+Proof.
+  intros Hnd Hincl Hsum f Hin Hpos. destruct (In_dec frag_eq_dec f l) as [H|Hnin]; [exact H|exfalso].
+  apply in_split in Hin. destruct Hin as (P1 & P2 & ->).
+  assert (Hl : incl l (P1 ++ P2)).
+  { intros x Hx. pose proof (Hincl x Hx) as Hxp. apply in_app_or in Hxp. apply in_or_app.
+    destruct Hxp as [H|[H|H]]; [now left| |now right]. subst x. contradiction. }
+  pose proof (wsum_incl f_flen l Hnd _ Hl) as Hle.
+  change (wsum f_flen l = wsum f_flen (P1 ++ f :: P2)) in Hsum.
+  rewrite wsum_app in Hsum, Hle. unfold wsum in *. cbn [fold_right] in Hsum. lia.
+Qed.
+
+Section Complete.
+  Variable n : N.
+  Variable M : N -> hmsg.
+  Variable P : N -> list frag.
+  Hypothesis Hn : n < 65536.
+  Hypothesis HM : forall j, j < n -> m_seq (M j) = j /\ good_part (M j) (P j).
+
+  (* a fragment of THE partition of the message it names *)
+  Definition part_frag (f : frag) : Prop := f_seq f < n /\ In f (P (f_seq f)).
+  (* a well-formed handshake record of such fragments *)
+  Definition part_rec (r : record) : Prop :=
+    match r with RHs _ fs tail => tail = 0 /\ Forall part_frag fs | _ => False end.
+  Definition rec_frags (r : record) : list frag := match r with RHs _ fs _ => fs | _ => [] end.
+  Definition arrived (rs : list record) : list frag := flat_map rec_frags rs.
+
+  (* capacity the whole handshake direction needs: all body bytes / all fragments *)
+  Definition cap_bytes : N := wsum (fun j => sum_flen (P j)) (idx n).
+  Definition cap_frags : N := wsum (fun j => N.of_nat (length (P j))) (idx n).
+
+  Lemma Hseq' : forall j, j < n -> m_seq (M j) = j.
+  Proof. intros j Hj. now destruct (HM j Hj). Qed.
+
+  Lemma part_frag_honest f : part_frag f -> honest_frag n M f.
+  Proof. intros [Hk Hin]. split; [exact Hk|]. destruct (HM _ Hk) as [_ Hg]. now apply (good_part_slice _ (P (f_seq f))). Qed.
+
+  Lemma part_frag_seq k f : k < n -> In f (P k) -> f_seq f = k.
+  Proof.
+    intros Hk Hin. destruct (HM k Hk) as [Hs Hg]. apply (good_part_slice _ _ f Hg) in Hin.
+    destruct Hin as ((_ & _ & Hq) & _). now rewrite Hq.
+  Qed.
+
+  Lemma part_rec_honest r : part_rec r -> honest_rec n M r.
+  Proof.
+    destruct r as [x|x|ep fs tail]; cbn; try contradiction. intros [_ H].
+    eapply Forall_impl; [|exact H]. apply part_frag_honest.
+  Qed.
+
+  Definition stored_of (e : entry) : list frag := map s_frag (e_frags e).
+
+  Definition LInv (Arr : frag -> Prop) (st : state) : Prop :=
+    WF st /\ SInv n M st /\
+    (forall k e, clookup k (cache st) = Some e ->
+       cur st <= k /\ incl (stored_of e) (P k) /\ (forall f, In f (stored_of e) -> Arr f)) /\
+    (forall f, Arr f -> cur st <= f_seq f ->
+       exists e, clookup (f_seq f) (cache st) = Some e /\ In f (stored_of e)) /\
+    (forall j f, j < cur st -> In f (P j) -> 0 < f_flen f -> Arr f).
+
+  Lemma LInv_equiv (A A' : frag -> Prop) st : (forall f, A f <-> A' f) -> LInv A st -> LInv A' st.
+  Proof.
+    intros Heq (H1 & H2 & H3 & H4 & H5). split; [exact H1|split; [exact H2|split; [|split]]].
+    - intros k e Hl. destruct (H3 k e Hl) as (Ha & Hb & Hc). split; [exact Ha|split; [exact Hb|]].
+      intros f Hf. apply Heq. now apply Hc.
+    - intros f Hf. apply H4. now apply Heq.
+    - intros j f Hj Hin Hp. apply Heq. now apply (H5 j).
+  Qed.
+
+  Lemma LInv_init : LInv (fun _ => False) init.
+  Proof.
+    split; [apply WF_init|split; [apply (SInv_init n M Hn Hseq')|split; [|split]]].
+    - intros k e H. discriminate.
+    - intros f [].
+    - intros j f Hj. cbn in Hj. lia.
+  Qed.
+
+  Lemma stored_nodup e : entry_wf e -> NoDup (stored_of e).
+  Proof.
+    intros [_ Hnd]. unfold stored_of. apply (NoDup_map_inv f_off).
+    rewrite map_map. exact Hnd.
+  Qed.
+
+  Lemma stored_sum e : entry_wf e -> e_sum e = sum_flen (stored_of e).
+  Proof. intros [Hs _]. rewrite Hs. unfold stored_of. rewrite sum_flen_wsum, wsum_map. reflexivity. Qed.
+
+  Lemma LInv_capacity Arr st : LInv Arr st -> size st <= cap_bytes /\ count st <= cap_frags.
+  Proof.
+    intros ((Hnd & Hent & Hsz & Hcn) & (_ & HS) & H3 & _).
+    assert (Hkey : forall p, In p (cache st) -> clookup (fst p) (cache st) = Some (snd p)).
+    { intros [k e] Hin. now apply In_clookup. }
+    assert (Hkeys : incl (map fst (cache st)) (idx n)).
+    { intros k Hk. apply in_map_iff in Hk. destruct Hk as (p & <- & Hp). apply In_idx.
+      now destruct (HS _ _ (Hkey p Hp)). }
+    split.
+    - rewrite Hsz. unfold tot.
+      transitivity (wsum (fun p : N * entry => sum_flen (P (fst p))) (cache st)).
+      + apply wsum_le. intros p Hp. pose proof (Hkey p Hp) as Hl.
+        destruct (H3 _ _ Hl) as (_ & Hincl & _).
+        rewrite (stored_sum _ (Hent _ _ Hl)). rewrite !sum_flen_wsum.
+        apply wsum_incl; [apply stored_nodup; now apply (Hent _ _ Hl)|exact Hincl].
+      + rewrite <- (wsum_map fst (fun j => sum_flen (P j))). apply wsum_incl; assumption.
+    - rewrite Hcn. unfold tot.
+      transitivity (wsum (fun p : N * entry => N.of_nat (length (P (fst p)))) (cache st)).
+      + apply wsum_le. intros p Hp. pose proof (Hkey p Hp) as Hl.
+        destruct (H3 _ _ Hl) as (_ & Hincl & _). unfold ecount.
+        replace (length (e_frags (snd p))) with (length (stored_of (snd p))) by (unfold stored_of; apply map_length).
+        pose proof (NoDup_incl_length (stored_nodup _ (Hent _ _ Hl)) Hincl). lia.
+      + rewrite <- (wsum_map fst (fun j => N.of_nat (length (P j)))). apply wsum_incl; assumption.
+  Qed.
+
+  Lemma push_frag_LInv ep Arr st b f : part_frag f -> LInv Arr st ->
+    LInv (fun x => x = f \/ Arr x) (fst (push_frag ep (st, b) f)).
+  Proof.
+    intros Hpf (Hwf & HS & H3 & H4 & H5).
+    pose proof (push_frag_WF ep st b f Hwf) as Hwf'.
+    pose proof (push_frag_SInv n M ep st b f (part_frag_honest f Hpf) HS) as HS'.
+    pose proof (push_frag_cur ep st b f) as Hcur.
+    split; [exact Hwf'|split; [exact HS'|]]. clear Hwf' HS'.
+    destruct Hpf as [Hk Hin].
+    revert Hcur. unfold push_frag. destruct (f_seq f <? cur st) eqn:Elt; cbn [fst]; intros _.
+    { (* retransmission: nothing changes *)
+      split; [|split].
+      - intros k e Hl. destruct (H3 k e Hl) as (Ha & Hb & Hc). split; [exact Ha|split; [exact Hb|]].
+        intros x Hx. right. now apply Hc.
+      - intros x [->|Hx] Hc; [lia|now apply H4].
+      - intros j x Hj Hx Hp. right. now apply (H5 j). }
+    set (k := f_seq f) in *.
+    assert (Hck : cur st <= k) by lia.
+    destruct (clookup k (cache st)) as [e0|] eqn:Elk.
+    - destruct (H3 _ _ Elk) as (_ & Hincl0 & Harr0).
+      destruct (efind (f_off f) (e_frags e0)) as [s|] eqn:Ef; cbn [fst cache cur]; (split; [|split]).
+      + intros k' e'. rewrite clookup_cset. destruct (k =? k') eqn:E.
+        * apply N.eqb_eq in E. subst k'. intro H; inversion H; subst e'; clear H.
+          split; [exact Hck|split; [exact Hincl0|]]. intros x Hx. right. now apply Harr0.
+        * intro Hl. destruct (H3 _ _ Hl) as (Ha & Hb & Hc). split; [exact Ha|split; [exact Hb|]].
+          intros x Hx. right. now apply Hc.
+      + (* the offset is already taken - by f itself, since one partition has one fragment per offset *)
+        apply efind_some in Ef. destruct Ef as [Hsin Hsoff].
+        assert (Hsf : s_frag s = f).
+        { destruct (HM k Hk) as [_ (_ & _ & _ & _ & Hndp)].
+          apply (nodup_map_inj f_off (P k)); auto. apply Hincl0. unfold stored_of. now apply in_map. }
+        intros x [->|Hx] Hc.
+        * exists e0. rewrite clookup_cset, N.eqb_refl. split; [reflexivity|].
+          unfold stored_of. rewrite <- Hsf. now apply in_map.
+        * destruct (H4 x Hx Hc) as (e & Hl & Hi). rewrite clookup_cset.
+          destruct (k =? f_seq x) eqn:E; [|now exists e].
+          apply N.eqb_eq in E. rewrite <- E in Hl. rewrite Elk in Hl. inversion Hl; subst e. now exists e0.
+      + intros j x Hj Hx Hp. right. now apply (H5 j).
+      + intros k' e'. rewrite clookup_cset. destruct (k =? k') eqn:E.
+        * apply N.eqb_eq in E. subst k'. intro H; inversion H; subst e'; clear H.
+          unfold stored_of. cbn [e_frags map s_frag]. fold (stored_of e0).
+          split; [exact Hck|split].
+          -- intros x [<-|Hx]; [exact Hin|now apply Hincl0].
+          -- intros x [<-|Hx]; [now left|right; now apply Harr0].
+        * intro Hl. destruct (H3 _ _ Hl) as (Ha & Hb & Hc). split; [exact Ha|split; [exact Hb|]].
+          intros x Hx. right. now apply Hc.
+      + intros x [->|Hx] Hc.
+        * eexists. rewrite clookup_cset, N.eqb_refl. split; [reflexivity|].
+          unfold stored_of. cbn [e_frags map s_frag]. now left.
+        * destruct (H4 x Hx Hc) as (e & Hl & Hi). rewrite clookup_cset.
+          destruct (k =? f_seq x) eqn:E; [|now exists e].
+          apply N.eqb_eq in E. rewrite <- E in Hl. rewrite Elk in Hl. inversion Hl; subst e.
+          eexists. split; [reflexivity|]. unfold stored_of. cbn [e_frags map s_frag]. right. exact Hi.
+      + intros j x Hj Hx Hp. right. now apply (H5 j).
+    - cbn [e_frags efind find fst cache cur e_sum e_hlen]. split; [|split].
+      + intros k' e'. rewrite clookup_cset. destruct (k =? k') eqn:E.
+        * apply N.eqb_eq in E. subst k'. intro H; inversion H; subst e'; clear H.
+          unfold stored_of. cbn [e_frags map s_frag].
+          split; [exact Hck|split].
+          -- intros x [<-|[]]. exact Hin.
+          -- intros x [<-|[]]. now left.
+        * intro Hl. destruct (H3 _ _ Hl) as (Ha & Hb & Hc). split; [exact Ha|split; [exact Hb|]].
+          intros x Hx. right. now apply Hc.
+      + intros x [->|Hx] Hc.
+        * eexists. rewrite clookup_cset, N.eqb_refl. split; [reflexivity|].
+          unfold stored_of. cbn [e_frags map s_frag]. now left.
+        * destruct (H4 x Hx Hc) as (e & Hl & Hi). rewrite clookup_cset.
+          destruct (k =? f_seq x) eqn:E; [|now exists e].
+          apply N.eqb_eq in E. rewrite <- E in Hl. rewrite Elk in Hl. discriminate.
+      + intros j x Hj Hx Hp. right. now apply (H5 j).
+  Qed.
+
+  Lemma push_frags_LInv ep fs : Forall part_frag fs -> forall Arr st b, LInv Arr st ->
+    LInv (fun x => In x fs \/ Arr x) (fst (fold_left (push_frag ep) fs (st, b))).
+  Proof.
+    induction 1 as [|f fs Hf _ IH]; intros Arr st b HL.
+    - cbn [fold_left fst]. eapply LInv_equiv; [|exact HL]. intro x. cbn [In]. tauto.
+    - cbn [fold_left]. pose proof (push_frag_LInv ep Arr st b f Hf HL) as H1.
+      destruct (push_frag ep (st, b) f) as [s1 b1]. cbn [fst] in H1.
+      specialize (IH _ s1 b1 H1). eapply LInv_equiv; [|exact IH].
+      intro x. cbn [In]. split; intro H; [destruct H as [H|[H|H]]|destruct H as [[H|H]|H]]; auto.
+  Qed.
+
+  (* the entry of a complete current message pops *)
+  Lemma complete_pops Arr st e : LInv Arr st -> clookup (cur st) (cache st) = Some e ->
+    incl (P (cur st)) (stored_of e) -> exists p st', pop st = POk p st'.
+  Proof.
+    intros ((Hnd & Hent & _) & (_ & HS) & H3 & _) Hl Hall.
+    destruct (HS _ _ Hl) as (Hk & Hhl & _). destruct (H3 _ _ Hl) as (_ & Hincl & _).
+    pose proof (Hent _ _ Hl) as Hwf. pose proof Hwf as [_ Hndo].
+    destruct (HM _ Hk) as [_ Hg]. pose proof Hg as (Hne & _ & Hc & Hcat & Hndp).
+    assert (HndP : NoDup (P (cur st))) by (now apply (NoDup_map_inv f_off)).
+    assert (Hsum : e_sum e = e_hlen e).
+    { rewrite Hhl, <- (good_part_sum _ _ Hg), (stored_sum _ Hwf). rewrite !sum_flen_wsum.
+      apply N.le_antisymm; apply wsum_incl; auto. now apply stored_nodup. }
+    assert (Hwalk : walk (length (e_frags e)) 0 (e_hlen e) (e_frags e) [] = Some (m_body (M (cur st)))).
+    { rewrite (walk_complete (e_hlen e) (e_frags e) Hndo (P (cur st)) 0 []); auto.
+      - cbn [app]. now rewrite Hcat.
+      - rewrite Hhl, (good_part_sum _ _ Hg). lia.
+      - replace (length (e_frags e)) with (length (stored_of e)) by (unfold stored_of; apply map_length).
+        now apply NoDup_incl_length. }
+    destruct (good_part_first _ _ Hg) as (f0 & Hf0 & Hoff0).
+    assert (Hfind : exists s0, efind 0 (e_frags e) = Some s0).
+    { apply Hall in Hf0. unfold stored_of in Hf0. apply in_map_iff in Hf0. destruct Hf0 as (s0 & Hs0 & Hin0).
+      exists s0. rewrite <- (efind_nodup _ s0 Hndo Hin0). f_equal. unfold s_off. now rewrite Hs0. }
+    destruct Hfind as (s0 & Hfind).
+    unfold pop. rewrite Hl, Hsum, N.eqb_refl. cbn [negb]. rewrite Hwalk, Hhl, N.eqb_refl. cbn [negb].
+    rewrite Hfind. eauto.
+  Qed.
+
+  Lemma pop_LInv Arr st p st' : LInv Arr st -> pop st = POk p st' -> LInv Arr st'.
+  Proof.
+    intros HL Hpop. pose proof HL as (Hwf & HS & H3 & H4 & H5).
+    destruct (pop_WF _ _ _ Hwf Hpop) as (Hwf' & _ & _ & _ & Hcache).
+    pose proof (pop_safe n M Hn Hseq' st HS) as Hps. rewrite Hpop in Hps.
+    destruct Hps as (Hk & _ & HS' & Hcur).
+    split; [exact Hwf'|split; [exact HS'|split; [|split]]].
+    - intros k e. rewrite Hcache, clookup_cremove. destruct (cur st =? k) eqn:E; [discriminate|].
+      intro Hl. destruct (H3 _ _ Hl) as (Ha & Hb & Hc). split; [lia|split; assumption].
+    - intros f Hf Hc. rewrite Hcache, clookup_cremove.
+      destruct (cur st =? f_seq f) eqn:E; [lia|]. apply H4; [exact Hf|lia].
+    - intros j f Hj Hin Hp. rewrite Hcur in Hj.
+      destruct (N.eq_dec j (cur st)) as [->|Hne]; [|apply (H5 j); auto; lia].
+      (* the message just popped: its stored fragments sum to its length, so they include f *)
+      apply pop_ok_inv in Hpop. destruct Hpop as (e & raw & s0 & Hl & Hsum & _).
+      destruct Hwf as (_ & Hent & _). destruct HS as (_ & HSe).
+      destruct (H3 _ _ Hl) as (_ & Hincl & Harr). destruct (HSe _ _ Hl) as (_ & Hhl & _).
+      destruct (HM _ Hk) as [_ Hg]. apply Harr.
+      apply (sum_full (stored_of e) (P (cur st))); auto.
+      + now apply stored_nodup, (Hent _ _ Hl).
+      + rewrite <- (stored_sum _ (Hent _ _ Hl)), Hsum, Hhl. symmetry. now apply (good_part_sum _ _ Hg).
+  Qed.
+
+  Lemma pop_all_LInv Arr fuel : forall st, LInv Arr st -> LInv Arr (fst (fst (pop_all fuel st))).
+  Proof.
+    induction fuel as [|k IH]; intros st HL; [exact HL|]. cbn [pop_all].
+    destruct (pop st) as [| |p st1] eqn:E; try exact HL.
+    specialize (IH st1 (pop_LInv _ _ _ _ HL E)). destruct (pop_all k st1) as [[st2 ms] pn]. exact IH.
+  Qed.
+
+  Definition Quiet (st : state) : Prop := pop st = PNone.
+
+  Lemma arrive_LInv Arr st r : part_rec r -> cap_frags < max_count -> cap_bytes + record_size r < max_size ->
+    LInv Arr st ->
+    let st' := fst (fst (fst (arrive st r))) in
+    LInv (fun x => In x (rec_frags r) \/ Arr x) st' /\ Quiet st'.
+  Proof.
+    intros Hr Hcf Hcb HL. cbv zeta.
+    destruct r as [x|x|ep fs tail]; cbn [part_rec] in Hr; try contradiction. destruct Hr as [-> Hfs].
+    destruct (LInv_capacity _ _ HL) as [Hsz Hct].
+    unfold arrive, push.
+    replace ((max_size <=? size st + record_size (RHs ep fs 0)) || (max_count <=? count st)) with false
+      by (symmetry; apply orb_false_intro; apply N.leb_gt; lia).
+    pose proof (push_frags_LInv ep fs Hfs Arr st false HL) as H1. unfold push_frags.
+    destruct (fold_left (push_frag ep) fs (st, false)) as [st1 retr]. cbn [fst N.eqb orb negb] in *.
+    pose proof (pop_all_LInv _ (S (length (cache st1))) st1 H1) as H2.
+    pose proof (drain_done st1) as Hd. unfold drain in *.
+    destruct H1 as (_ & HS1 & _).
+    pose proof (pop_all_safe n M Hn Hseq' (S (length (cache st1))) st1 HS1) as Hsafe.
+    destruct (pop_all (S (length (cache st1))) st1) as [[st2 ms] pn]. cbn [fst] in *.
+    destruct Hsafe as (-> & _). split; [exact H2|]. now apply Hd.
+  Qed.
+
+  Lemma run_LInv rs : cap_frags < max_count ->
+    Forall (fun r => part_rec r /\ cap_bytes + record_size r < max_size) rs ->
+    forall Arr st, LInv Arr st -> Quiet st ->
+    let st' := fst (fst (run st rs)) in
+    LInv (fun x => In x (arrived rs) \/ Arr x) st' /\ Quiet st'.
+  Proof.
+    intros Hcf. induction 1 as [|r rs [Hr Hcb] _ IH]; intros Arr st HL HQ; cbv zeta.
+    - cbn [run fst arrived flat_map]. split; [|exact HQ]. eapply LInv_equiv; [|exact HL]. intro x; cbn [In]; tauto.
+    - cbn [run]. pose proof (arrive_LInv Arr st r Hr Hcf Hcb HL) as H1. cbv zeta in H1.
+      destruct (arrive st r) as [[[st1 tr] ms] p]. cbn [fst] in H1. destruct H1 as [HL1 HQ1].
+      specialize (IH _ st1 HL1 HQ1). cbv zeta in IH.
+      destruct (run st1 rs) as [[st2 ms'] p']. cbn [fst] in *. destruct IH as [HL2 HQ2].
+      split; [|exact HQ2]. eapply LInv_equiv; [|exact HL2].
+      intro x. cbn [arrived flat_map]. rewrite in_app_iff. fold (arrived rs). tauto.
+  Qed.
+
+  (* COMPLETENESS.  Every message has one fixed partition P j (a good partition: what
+     fragmentHandshake emits for any MTU > 0, by SplitSound.split_msg_good_part), the arrival history
+     is any list of well-formed handshake records made of fragments of these partitions (any order,
+     duplication, interleaving, packing), and the handshake direction fits the buffer limits.  Then
+     after the history:
+       - message j has been delivered as soon as every fragment of messages 0..j has arrived;
+       - a delivered message had every non-empty fragment (every byte) arrived;
+       - (with reassembly_safe) what was delivered is M 0 .. M (cur-1), exactly once, in order. *)
+  Theorem reassembly_complete rs : cap_frags < max_count ->
+    Forall (fun r => part_rec r /\ cap_bytes + record_size r < max_size) rs ->
+    let '(st, pops, pn) := run init rs in
+    pn = false /\ cur st <= n /\ map strip pops = map (fun j => hstrip (M j)) (idx (cur st)) /\
+    (forall j, j < n -> (forall i f, i <= j -> In f (P i) -> In f (arrived rs)) -> j < cur st) /\
+    (forall j f, j < cur st -> In f (P j) -> 0 < f_flen f -> In f (arrived rs)).
+  Proof.
+    intros Hcf Hrs.
+    assert (Hhon : Forall (honest_rec n M) rs).
+    { eapply Forall_impl; [|exact Hrs]. cbn. intros r [Hr _]. now apply part_rec_honest. }
+    pose proof (reassembly_safe n M Hn Hseq' rs Hhon) as Hsafe.
+    pose proof (run_LInv rs Hcf Hrs _ init LInv_init eq_refl) as HL. cbv zeta in HL.
+    destruct (run init rs) as [[st pops] pn]. cbn [fst] in HL. destruct Hsafe as (Hpn & Hc & Hm).
+    destruct HL as [HL HQ]. split; [exact Hpn|split; [exact Hc|split; [exact Hm|split]]].
+    - intros j Hj Hall. destruct (N.lt_ge_cases j (cur st)) as [H|Hge]; [exact H|exfalso].
+      set (k := cur st) in *. assert (Hk : k < n) by lia.
+      destruct (HM k Hk) as [_ Hg]. destruct (good_part_first _ _ Hg) as (f0 & Hf0 & _).
+      pose proof HL as (_ & _ & H3 & H4 & _).
+      assert (Hst : forall f, In f (P k) -> exists e, clookup k (cache st) = Some e /\ In f (stored_of e)).
+      { intros f Hf. rewrite <- (part_frag_seq k f Hk Hf).
+        apply H4; [left; apply (Hall k f Hge Hf)|rewrite (part_frag_seq k f Hk Hf); subst k; lia]. }
+      destruct (Hst f0 Hf0) as (e & Hl & _).
+      destruct (complete_pops _ st e HL Hl) as (p & st' & Hp).
+      + intros f Hf. destruct (Hst f Hf) as (e' & Hl' & Hi). fold k in Hl. rewrite Hl in Hl'. now inversion Hl'.
+      + unfold Quiet in HQ. rewrite HQ in Hp. discriminate.
+    - intros j f Hj Hin Hp. destruct HL as (_ & _ & _ & _ & H5).
+      destruct (H5 j f Hj Hin Hp) as [H|[]]. exact H.
+  Qed.
+End Complete.
+
+(* ------------------------------------------------------------------ 6. refutations (liveness) *)
+
+(* generic "nothing is ever popped again" argument: a predicate that makes Pop return nil and
+   survives every Push *)
+Lemma run_wedged (W : state -> Prop) :
+  (forall st, W st -> pop st = PNone) ->
+  (forall st r, W st -> W (fst (push st r))) ->
+  forall rs st, W st -> snd (fst (run st rs)) = [] /\ snd (run st rs) = false /\ W (fst (fst (run st rs))).
+Proof.
+  intros Hpop Hpush. induction rs as [|r rs IH]; intros st HW; [cbn; auto|].
+  cbn [run]. unfold arrive. pose proof (Hpush st r HW) as H1.
+  destruct (push st r) as [st1 [[ish retr] err]]. cbn [fst] in H1.
+  destruct (err || negb ish).
+  - specialize (IH st1 H1). destruct (run st1 rs) as [[st2 ms] p]. cbn [fst snd app orb] in *. exact IH.
+  - unfold drain. cbn [pop_all]. rewrite (Hpop st1 H1).
+    specialize (IH st1 H1). destruct (run st1 rs) as [[st2 ms] p]. cbn [fst snd app orb] in *. exact IH.
+Qed.
+
+Lemma push_W_from_frag (W : state -> Prop) :
+  (forall ep st b f, W st -> W (fst (push_frag ep (st, b) f))) ->
+  forall st r, W st -> W (fst (push st r)).
+Proof.
+  intros Hf st r HW. unfold push. destruct (_ || _); [exact HW|].
+  destruct r as [x|x|ep fs tail]; try exact HW.
+  pose proof (push_frags_fold W ep (Hf ep) fs st false HW) as H. unfold push_frags.
+  destruct (fold_left (push_frag ep) fs (st, false)) as [st' retr]. destruct (tail =? 0); exact H.
+Qed.
+
+(* (a) OVERSHOOT.  Once the stored fragment lengths of the current message sum to more than its
+   Length, `fragmentsLength != handshakeLength` holds forever: whatever is pushed afterwards (honest
+   or not), nothing is ever popped again. *)
+Definition Overshot (st : state) : Prop :=
+  exists e, clookup (cur st) (cache st) = Some e /\ e_hlen e < e_sum e.
+
+Lemma overshot_pop st : Overshot st -> pop st = PNone.
+Proof.
+  intros (e & Hl & Hlt). unfold pop. rewrite Hl.
+  destruct (e_sum e =? e_hlen e) eqn:E; [lia|reflexivity].
+Qed.
+
+Lemma overshot_push_frag ep st b f : Overshot st -> Overshot (fst (push_frag ep (st, b) f)).
+Proof.
+  intros (e & Hl & Hlt). unfold Overshot, push_frag. destruct (f_seq f <? cur st); [now exists e|].
+  destruct (N.eq_dec (f_seq f) (cur st)) as [Heq|Hne].
+  - rewrite Heq, Hl. destruct (efind _ _); cbn [fst cache cur]; eexists; rewrite clookup_cset, N.eqb_refl;
+      (split; [reflexivity|cbn [e_hlen e_sum]; lia]).
+  - destruct (match clookup (f_seq f) (cache st) with Some e1 => e1 | None => _ end) as [fr sm hl].
+    cbn [e_frags e_sum e_hlen]. destruct (efind (f_off f) fr); cbn [fst cache cur]; exists e;
+      rewrite clookup_cset; (destruct (f_seq f =? cur st) eqn:E; [apply N.eqb_eq in E; contradiction|]); auto.
+Qed.
+
+Theorem overshoot_wedges_forever st rs : Overshot st ->
+  snd (fst (run st rs)) = [] /\ Overshot (fst (fst (run st rs))).
+Proof.
+  intro H. destruct (run_wedged Overshot overshot_pop
+    (push_W_from_frag Overshot overshot_push_frag) rs st H) as (H1 & _ & H3). now split.
+Qed.
+
+(* ... and two different MTU partitions of the same 4-byte message reach that state: fragment (0,2)
+   of the MTU-2 partition, fragment (3,1) of the MTU-3 partition, then (2,2) of the MTU-2 partition:
+   2 + 1 + 2 = 5 > 4.  All three are genuine slices (reassembly_safe applies: nothing wrong is ever
+   delivered) - but the message is never delivered, although every byte has arrived. *)
+Definition rp_msg : hmsg := mkMsg 1 0 [1; 2; 3; 4].
+Definition rp_history : list record :=
+  [RHs 0 [mkFrag 1 4 0 0 [1; 2]] 0; RHs 0 [mkFrag 1 4 0 3 [4]] 0; RHs 0 [mkFrag 1 4 0 2 [3; 4]] 0].
+
+Theorem repartition_wedges_refuted :
+  Forall (fun r => Forall (fun f => In f (split_msg 2 rp_msg) \/ In f (split_msg 3 rp_msg)) (rec_frags r)) rp_history /\
+  (forall rs, snd (fst (run init (rp_history ++ rs))) = []).
+Proof.
+  split.
+  - vm_compute. repeat constructor; tauto.
+  - intro rs.
+    assert (Hst : Overshot (fst (fst (run init rp_history)))).
+    { vm_compute. eexists. split; [reflexivity|]. vm_compute. reflexivity. }
+    assert (Hpre : snd (fst (run init rp_history)) = []) by (vm_compute; reflexivity).
+    assert (Happ : forall a b st, snd (fst (run st (a ++ b))) =
+                     snd (fst (run st a)) ++ snd (fst (run (fst (fst (run st a))) b))).
+    { induction a as [|r a IH]; intros b st; [reflexivity|]. cbn [app run].
+      destruct (arrive st r) as [[[st1 tr] ms] p]. specialize (IH b st1).
+      destruct (run st1 (a ++ b)) as [[s2 m2] p2]. destruct (run st1 a) as [[s3 m3] p3].
+      cbn [fst snd] in *. destruct (run s3 b) as [[s4 m4] p4]. cbn [fst snd] in *.
+      rewrite IH. now rewrite app_assoc. }
+    rewrite Happ, Hpre. cbn [app]. now destruct (overshoot_wedges_forever _ rs Hst).
+Qed.
+
+(* (b) a zero-length fragment stored at the offset where the first fragment ends occupies that
+   offset for ever (first writer wins) and the chain walk spins on it: nothing is ever popped again. *)
+Definition ZeroBlocked (st : state) : Prop :=
+  exists e s0 s1, clookup (cur st) (cache st) = Some e /\
+    efind 0 (e_frags e) = Some s0 /\ 0 < s_flen s0 /\ s_flen s0 < e_hlen e /\
+    efind (s_flen s0) (e_frags e) = Some s1 /\ s_flen s1 = 0.
+
+Lemma walk_zero_stays hlen frs s1 t : efind t frs = Some s1 -> s_flen s1 = 0 -> t < hlen ->
+  forall fuel acc, walk fuel t hlen frs acc = Some acc.
+Proof.
+  intros Hf Hz Ht. induction fuel as [|k IH]; intro acc; cbn [walk]; [reflexivity|].
+  replace (t <? hlen) with true by (symmetry; apply N.ltb_lt; exact Ht). rewrite Hf.
+  pose proof (efind_some _ _ _ Hf) as [_ Hoff]. rewrite Hoff, Hz, N.add_0_r.
+  unfold s_flen, f_flen in Hz. apply len_0_nil in Hz. rewrite Hz, app_nil_r. apply IH.
+Qed.
+
+Lemma zeroblocked_pop st : ZeroBlocked st -> pop st = PNone.
+Proof.
+  intros (e & s0 & s1 & Hl & H0 & Hp & Hlt & H1 & Hz). unfold pop. rewrite Hl.
+  destruct (negb (e_sum e =? e_hlen e)); [reflexivity|].
+  assert (Hw : exists raw, walk (length (e_frags e)) 0 (e_hlen e) (e_frags e) [] = Some raw /\ len raw < e_hlen e).
+  { destruct (length (e_frags e)) as [|k]; cbn [walk].
+    - exists []. split; [reflexivity|]. cbn. lia.
+    - replace (0 <? e_hlen e) with true by (symmetry; apply N.ltb_lt; lia). rewrite H0.
+      pose proof (efind_some _ _ _ H0) as [_ Hoff]. rewrite Hoff, N.add_0_l. cbn [app].
+      rewrite (walk_zero_stays _ _ s1 _ H1 Hz Hlt). eexists. split; [reflexivity|]. exact Hlt. }
+  destruct Hw as (raw & -> & Hlen). destruct (e_hlen e =? len raw) eqn:E; [lia|reflexivity].
+Qed.
+
+Lemma efind_cons_other x l off s : efind off l = Some s -> s_off x <> off -> efind off (x :: l) = Some s.
+Proof. unfold efind. cbn [find]. intros H Hne. apply N.eqb_neq in Hne. now rewrite Hne. Qed.
+
+Lemma zeroblocked_push_frag ep st b f : ZeroBlocked st -> ZeroBlocked (fst (push_frag ep (st, b) f)).
+Proof.
+  intros (e & s0 & s1 & Hl & H0 & Hp & Hlt & H1 & Hz). unfold ZeroBlocked, push_frag.
+  destruct (f_seq f <? cur st); [now exists e, s0, s1|].
+  destruct (N.eq_dec (f_seq f) (cur st)) as [Heq|Hne].
+  - rewrite Heq, Hl. destruct (efind (f_off f) (e_frags e)) eqn:Ef; cbn [fst cache cur].
+    + exists e, s0, s1. rewrite clookup_cset, N.eqb_refl. auto 10.
+    + eexists. exists s0, s1. rewrite clookup_cset, N.eqb_refl. split; [reflexivity|]. cbn [e_frags e_hlen].
+      assert (Hn0 : s_off (mkS f ep) <> 0).
+      { unfold s_off. cbn [s_frag]. intro Hc. rewrite Hc in Ef. rewrite H0 in Ef. discriminate. }
+      assert (Hn1 : s_off (mkS f ep) <> s_flen s0).
+      { unfold s_off. cbn [s_frag]. intro Hc. rewrite Hc in Ef. rewrite H1 in Ef. discriminate. }
+      split; [now apply efind_cons_other|]. split; [exact Hp|]. split; [exact Hlt|].
+      split; [now apply efind_cons_other|exact Hz].
+  - destruct (match clookup (f_seq f) (cache st) with Some e1 => e1 | None => _ end) as [fr sm hl].
+    cbn [e_frags e_sum e_hlen]. destruct (efind (f_off f) fr); cbn [fst cache cur]; exists e, s0, s1;
+      rewrite clookup_cset; (destruct (f_seq f =? cur st) eqn:E; [apply N.eqb_eq in E; contradiction|]); auto 10.
+Qed.
+
+Theorem zero_fragment_wedges_forever st rs : ZeroBlocked st ->
+  snd (fst (run st rs)) = [] /\ ZeroBlocked (fst (fst (run st rs))).
+Proof.
+  intro H. destruct (run_wedged ZeroBlocked zeroblocked_pop
+    (push_W_from_frag ZeroBlocked zeroblocked_push_frag) rs st H) as (H1 & _ & H3). now split.
+Qed.
+
+(* the partition (0,2) (2,0) (2,2) of a 4-byte message - contiguous, covering, but with a zero-length
+   fragment in the middle - delivered in the order (0,2) (2,0) reaches that state *)
+Definition zf_partition : list frag := [mkFrag 1 4 0 0 [1; 2]; mkFrag 1 4 0 2 []; mkFrag 1 4 0 2 [3; 4]].
+Definition zf_history : list record := [RHs 0 [mkFrag 1 4 0 0 [1; 2]] 0; RHs 0 [mkFrag 1 4 0 2 []] 0].
+
+Theorem zero_fragment_wedges_refuted :
+  contiguous 0 zf_partition /\ cat_data zf_partition = m_body rp_msg /\ Forall (hdr_of rp_msg) zf_partition /\
+  Forall (fun r => incl (rec_frags r) zf_partition) zf_history /\
+  ZeroBlocked (fst (fst (run init zf_history))).
+Proof.
+  split; [vm_compute; auto|]. split; [reflexivity|]. split; [repeat constructor|]. split.
+  - unfold zf_history. constructor; [|constructor; [|constructor]]; intros x [<-|[]]; cbn; tauto.
+  - vm_compute. do 3 eexists. split; [reflexivity|]. vm_compute.
+    split; [reflexivity|]. split; [reflexivity|]. split; [reflexivity|]. split; reflexivity.
+Qed.
+
+(* (c) CAPACITY.  Once totalFragmentCount has reached fragmentBufferMaxCount every Push fails with
+   ErrFragmentBufferOverflow and changes nothing; only Pop / AdvanceTo free space.  So a message cut
+   into more than max_count fragments can never be reassembled. *)
+Definition Full (st : state) : Prop := max_count <= count st /\ pop st = PNone.
+
+Lemma full_push st r : Full st -> push st r = (st, (false, false, true)).
+Proof.
+  intros [H _]. unfold push. replace (max_count <=? count st) with true by (symmetry; apply N.leb_le; exact H).
+  now rewrite orb_true_r.
+Qed.
+
+Theorem full_rejects_forever st rs : Full st -> run st rs = (st, [], false).
+Proof.
+  intro HF. induction rs as [|r rs IH]; [reflexivity|]. cbn [run]. unfold arrive.
+  rewrite (full_push st r HF). cbn [orb]. rewrite IH. reflexivity.
+Qed.
+
+Definition cap_msg : hmsg := mkMsg 11 0 (repeat 7 1001).
+Definition cap_history : list record := map (fun f => RHs 0 [f] 0) (split_msg 1 cap_msg).
+
+Theorem capacity_wedges_refuted :
+  length (split_msg 1 cap_msg) = 1001%nat /\
+  snd (fst (run init cap_history)) = [] /\ Full (fst (fst (run init cap_history))).
+Proof.
+  split; [vm_compute; reflexivity|]. split; [vm_compute; reflexivity|].
+  split; [|vm_compute; reflexivity]. vm_compute. intro H. discriminate.
+Qed.
+
+(* hostile only: the popped header is the offset-0 fragment's, the body length is the creating
+   fragment's Length - they need not agree *)
+Theorem hostile_length_mismatch :
+  exists rs p, snd (fst (run init rs)) = [p] /\ p_len p <> len (p_body p).
+Proof.
+  exists [RHs 0 [mkFrag 1 2 0 1 [9]] 0; RHs 0 [mkFrag 1 7 0 0 [8]] 0]. eexists. split; [vm_compute; reflexivity|].
+  vm_compute. intro H. discriminate.
+Qed.
